@@ -93,18 +93,15 @@ namespace DFS
 	// in the root.  So, it's possible that this assertion may
 	// fire for non-root HDFS directories.
 	assert(disc_format() != Format::HDFS);
-	if (byte106 & 4)
-	  {
-	    // Watford large disk; TODO: decide whether the Format
-	    // enum should distinguish those.
-	    assert(disc_format() == Format::WDFS);
-	  }
-	else
-	  {
-	    assert(disc_format() == Format::WDFS ||
-		   disc_format() == Format::DFS ||
-		   disc_format() == Format::OpusDDOS);
-	  }
+	// Bit 2 signifies a Watford large disk (TODO: decide whether
+	// the Format enum should distinguish those).  We cannot
+	// assert that the format is WDFS when it is set, though,
+	// because format probing does not look at this bit: it is
+	// just data from the image file, and an Acorn or Opus
+	// catalogue can have it set.
+	assert(disc_format() == Format::WDFS ||
+	       disc_format() == Format::DFS ||
+	       disc_format() == Format::OpusDDOS);
       }
   }
 
